@@ -4,6 +4,7 @@ import (
 	"flag"
 	"fmt"
 	"os"
+	"strings"
 )
 
 func main() {
@@ -23,6 +24,7 @@ func main() {
 		solver := fs.String("solver", "", "comma list of z3|z3-new|cvc5 (fallback chain)")
 		dump := fs.String("dump", "", "dump smt2 into dir")
 		noprune := fs.Bool("noprune", false, "no feasibility pruning")
+		stub := fs.String("stub", "", "from=to[,from=to] contract stubs")
 		fs.Parse(os.Args[3:])
 		l, err := loadRepo()
 		if err != nil {
@@ -30,6 +32,13 @@ func main() {
 			os.Exit(2)
 		}
 		spec := HarnessSpec{Name: os.Args[2], Func: os.Args[2], Pkg: *pkg, Int: *intMode, Unwind: *unwind, Steps: *steps, Symbolic: *symb, TimeoutMs: *to, Solver: *solver, NoPrune: *noprune}
+		if *stub != "" {
+			spec.Stubs = map[string]string{}
+			for _, kv := range strings.Split(*stub, ",") {
+				p := strings.SplitN(kv, "=", 2)
+				spec.Stubs[p[0]] = p[1]
+			}
+		}
 		r := runHarness(l, spec, *trace, *dump)
 		printResult(r, true)
 		return
